@@ -7,16 +7,17 @@ open ArgoVerif.Model.UnitMap
 open ArgoVerif.Gen
 
 def exp : Nat := Consts.unitHashTableSizeExp.toNat
+def nul : UInt64 := UInt64.ofNat Consts.unitNull.toNat
 
 def dumpB (m : UM) (u : UInt64) : String :=
   let i := hashIndex m.exp u
-  s!" | b{i}:" ++ String.join ((m.b i).map fun e => " " ++ e.dump)
+  s!" | b{i}:" ++ String.join ((m.b i).map fun e => " " ++ e.dump m.nul)
 
-def okUnit (u : Nat) : Bool := u != 0 && u % 2 == 0 && u < 18446744073709551616
+def okUnit (u : Nat) : Bool := u != 0 && u % 2 == 0 && u < 18446744073709551616 && UInt64.ofNat u != nul
 
 def step (st : Option UM) (ws : List String) : Option UM × String :=
   match ws with
-  | ["new"] => (some (empty exp), "ok")
+  | ["new"] => (some (empty exp nul), "ok")
   | _ =>
   match st with
   | none => (st, "bad-op")
@@ -54,7 +55,7 @@ def step (st : Option UM) (ws : List String) : Option UM × String :=
       | some n, some k =>
         -- Props.C14.unitmap_lockfree_get: every lookup of a stably mapped unit returns its work
         -- unit, whatever interleaves; afterwards all cells are tombstones.  Fresh table.
-        if 1 ≤ n && n ≤ 16 && 1 ≤ k && k ≤ 64 then (some (empty exp), "stress ok") else (st, "bad-op")
+        if 1 ≤ n && n ≤ 16 && 1 ≤ k && k ≤ 64 then (some (empty exp nul), "stress ok") else (st, "bad-op")
       | _, _ => (st, "bad-op")
     | _ => (st, "bad-op")
 
